@@ -177,6 +177,38 @@ func init() {
 					if !ok || (be.Op != token.EQL && be.Op != token.NEQ) {
 						return "", false
 					}
+					// `bind != nil` with bind := findBinding(…, err): a selecting helper of the package — what its
+					// non-nil result entails
+					if depth < 2 && (isNilIdent(info, be.X) || isNilIdent(info, be.Y)) {
+						x := be.X
+						if isNilIdent(info, be.X) {
+							x = be.Y
+						}
+						if d := soleDef(info, fd.Body, x); d != nil && depth == 0 {
+							if hc, ok := ast.Unparen(d).(*ast.CallExpr); ok {
+								if h := originOf(Callee(info, hc)); h != nil && h.Pkg() == fn.Pkg() {
+									if po := boundParam(info, hc, h, errObj); po != nil {
+										sub := func(hi *types.Info) func(e ast.Expr) (string, bool) {
+											return mkCls(hi, po, map[types.Object]bool{}, depth+1)
+										}
+										sel := c.helperNonNilEntails(h, sub, goalSelected)
+										car := c.helperNonNilEntails(h, sub, goalCarved)
+										// the atom is true when x is non-nil for `!=`, nil for `==`
+										neg := be.Op == token.EQL
+										switch {
+										case sel && car:
+											return "h11", neg
+										case sel:
+											return "h10", neg
+										case car:
+											return "h01", neg
+										}
+									}
+								}
+							}
+						}
+						return "", false
+					}
 					neg := be.Op == token.NEQ
 					if isStrOf(be.X, errObj) || isStrOf(be.Y, errObj) {
 						other := be.Y
